@@ -356,6 +356,52 @@ def confirm_case(ctx, o):
     return bool(r)
 
 
+def crash_finding(ctx, args, quick):
+    """The harness process died: the live generator's goroutine panicked (a panic in a goroutine of the code under test
+    cannot be recovered by the harness). Re-run the same generated list one case per process (`-only K`) and report the
+    first case that kills the process, with its input."""
+    exe = os.path.join(verif.HBIN, "c19")
+    # without the end-to-end part: the cases are the scripted ones
+    a = []
+    skip = 0
+    for x in args:
+        if skip:
+            skip -= 1
+            continue
+        if x in ("-e2e", "-sx"):
+            skip = 1
+            continue
+        a.append(x)
+    try:
+        rc, out = verif.sh([exe] + [str(x) for x in a] + ["-count", "-out", "count.jsonl"], timeout=120, env=verif.GOENV,
+                           cwd=ctx.work)
+        total = int(out.strip().splitlines()[-1])
+    except Exception:
+        total = 400
+    hit = ctx.harness_crash_search("c19", a, total)
+    if not hit:
+        return
+    k, out = hit
+    m = re.search(r"(panic: [^\n]*|fatal error: [^\n]*)", out)
+    inp = {}
+    try:
+        inp = json.load(open(os.path.join(ctx.work, "only_%d.jsonl.input.json" % k)))
+    except Exception:
+        pass
+    scenario = [("fails to start" if p["fail"] else "pass %s" % p["reqs"]) for p in inp.get("script", [])]
+    where = ""
+    m2 = re.search(r"(liveRequestGenerator\S*)\n\s*(\S+:\d+)", out)
+    if m2:
+        where = " in %s at %s" % (m2.group(1).split("/")[-1], os.path.basename(m2.group(2)))
+    why = "the process crashes: %s%s; delegate script %s (capacity %s, rescan %.1f ms): a pass that fails to start must not " \
+          "end live mode with a crash" % (m.group(1) if m else "the harness process died", where, scenario, inp.get("cap"),
+                                          inp.get("rescan_us", 0) / 1000.0)
+    path = ctx.write_replay("crash-%d" % k, {
+        "property": "C19", "what": why, "input": {k2: inp[k2] for k2 in inp if k2 != "class"} | {"class": inp.get("class", "")},
+        "output_tail": out[-1500:], "replay_cmd": "bin/check C19 --replay <this file>"})
+    ctx.findings.append({"key": "crash", "what": why, "replay": path})
+
+
 def judge(ctx, rows, limit=3):
     seen = set()
     bad = sorted(((sum(len(p["reqs"]) for p in o["script"]), i) for i, o in enumerate(rows) if spec_on_impl(o)))
@@ -396,6 +442,8 @@ def run(ctx):
         else:
             ctx.skipped.append("e2e: the sx binary does not build: " + out[-300:])
         ok, _ = ctx.harness_run("c19", args, timeout=1500)
+        if not ok:
+            crash_finding(ctx, [a for a in args if a not in ("-e2e",)], quick)
         if ok:
             allrows = ctx.read_jsonl(os.path.join(ctx.work, "cases.jsonl"))
             rows = [o for o in allrows if o["kind"] in ("trace", "seq")]
@@ -510,8 +558,12 @@ def replay(ctx, path):
         p = os.path.join(ctx.work, "one-in.json")
         with open(p, "w") as f:
             json.dump(r["input"], f)
-        ok, _ = ctx.harness_run("c19", ["-out", "one.jsonl", "-replay", p], timeout=120)
+        ok, hout = ctx.harness_run("c19", ["-out", "one.jsonl", "-replay", p], timeout=120)
         if not ok:
+            m = re.search(r"(panic: [^\n]*|fatal error: [^\n]*)", hout or "")
+            print("replay script=%s: the process crashes: %s" % (
+                [("fail" if q["fail"] else q["reqs"]) for q in r["input"].get("script", [])],
+                m.group(1) if m else "the harness process died"))
             return 1
         o = ctx.read_jsonl(os.path.join(ctx.work, "one.jsonl"))[0]
         if o["kind"] == "real":
